@@ -192,8 +192,57 @@ def gen_adm_case(rng):
             "rows": [r for b in blocks for r in b], "seed": rng.randrange(1 << 30)}
 
 
+def gen_cov_case(rng):
+    """datasets with missing values (None = NaN) in DV, covariates and another column, most often in the FIRST record
+    of an individual: baselines, ids, time-varying covariates, observation counts
+    row = [id, time, amt, dv, cov_1 .. cov_k, x]"""
+    ncov = rng.choice([0, 1, 2, 2, 3])
+    nind = rng.randint(1, 6)
+    ids = rng.sample(range(1, 12), nind)
+    idmode = rng.random()
+    if idmode < 0.6:
+        ids.sort()
+    blocks = []
+    for i in ids:
+        n = rng.randint(1, 6)
+        base = [Fraction(rng.randint(1, 200), 2) for _ in range(ncov)]
+        varying = [rng.random() < 0.25 for _ in range(ncov)]
+        t = Fraction(0)
+        rows = []
+        for k in range(n):
+            pmiss = 0.45 if k == 0 else 0.15
+            dose = rng.random() < (0.6 if k == 0 else 0.3)
+            amt = Fraction(rng.randint(1, 40), 2) if dose else Fraction(0)
+            if dose:
+                dv = None if rng.random() < 0.5 else "0"
+            else:
+                dv = None if rng.random() < pmiss / 2 else _fmt(Fraction(rng.randint(1, 400), 4))
+            covs = []
+            for c in range(ncov):
+                if varying[c] and k and rng.random() < 0.5:
+                    base[c] = base[c] + Fraction(rng.randint(1, 9), 2)
+                covs.append(None if rng.random() < pmiss else _fmt(base[c]))
+            x = None if rng.random() < pmiss else str(rng.randint(0, 9))
+            rows.append([i, _fmt(t), _fmt(amt), dv] + covs + [x])
+            t = t + Fraction(rng.randint(0, 12), 2)
+        blocks.append(rows)
+    if idmode > 0.85 and nind > 1:
+        k = rng.randrange(len(blocks))
+        if len(blocks[k]) > 1:
+            cut = rng.randrange(1, len(blocks[k]))
+            tail = blocks[k][cut:]
+            blocks[k] = blocks[k][:cut]
+            blocks.insert(rng.randrange(k + 1, len(blocks) + 1), tail)
+    return {"kind": "cov", "idname": "SUBJ" if rng.random() < 0.1 else "ID", "ncov": ncov,
+            "rows": [r for b in blocks for r in b], "seed": rng.randrange(1 << 30)}
+
+
 def gen_cases(rng: random.Random, n: int, tier: str):
-    return [gen_adm_case(rng) if rng.random() < 0.3 else gen_case(rng) for _ in range(n)]
+    out = []
+    for _ in range(n):
+        x = rng.random()
+        out.append(gen_adm_case(rng) if x < 0.25 else gen_cov_case(rng) if x < 0.45 else gen_case(rng))
+    return out
 
 
 def _c(rows, idname="ID", unsorted=False, **cols):
@@ -238,6 +287,14 @@ def corpus_cases():
          "rows": [[1, "0", "10", 1, "iv", "0"], [1, "1", "0", 0, None, "3"], [2, "0", "0", 0, None, "1"],
                   [2, "0.5", "10", 1, "oral", "0"], [2, "2", "0", 0, None, "4"], [3, "0", "0", 3, None, "0"],
                   [3, "1", "0", 0, None, "2"], [4, "0", "5", 4, "iv", "0"], [4, "1", "0", 0, None, "2"]]},
+        # baselines: first records with missing values (covariate measured later, DV missing on the dose row)
+        {"kind": "cov", "idname": "ID", "ncov": 2, "seed": 7,
+         "rows": [[3, "0", "10", None, None, "30", "1"], [3, "1", "0", "1.5", "70", "30", "2"], [3, "2", "0", None, "70", "30", None],
+                  [1, "0", "0", None, "60", None, "4"], [1, "1", "0", "2", None, None, "5"], [3, "5", "0", "3", "71", "30", "6"],
+                  [2, "0", "5", "0", None, "40", None]]},
+        # no covariate column at all
+        {"kind": "cov", "idname": "ID", "ncov": 0, "seed": 8,
+         "rows": [[1, "0", "10", None, "1"], [1, "1", "0", "2", None], [2, "0", "0", "3", "2"], [2, "1", "0", "4", "2"]]},
         # fixed 208e5ef: EVID 4 after a pre-dose sample is a dose
         {"kind": "adm", "route": "iv", "idname": "ID", "cols": {"evid": True, "cmt": False, "adm": False}, "seed": 4,
          "rows": [[1, "0", "0", 0, None, "1"], [1, "1", "5", 4, "iv", "0"], [1, "2", "0", 0, None, "2"]]},
@@ -265,7 +322,7 @@ def shrink(case):
         c["rows"] = rows[:i] + rows[i + 1:]
         yield c
     for col in ("evid", "ss", "mdv", "addl"):
-        if case["cols"].get(col):
+        if case.get("cols", {}).get(col):
             c = dict(case)
             c["cols"] = dict(case["cols"])
             c["cols"][col] = False
@@ -429,6 +486,8 @@ def py_expand(rows, cols):
 def run_case(case, drv):
     if case["kind"] == "adm":
         return run_adm_case(case, drv)
+    if case["kind"] == "cov":
+        return run_cov_case(case, drv)
     k, mon, tags = [], [], []
     rows, df, model = build(case)
     cols = case["cols"]
@@ -1042,4 +1101,190 @@ def run_adm_case(case, drv):
                     mon.append({"cls": "add-cmt-values", "what": "add_cmt column != get_cmt"})
     if not model.dataset.equals(orig):
         mon.append({"cls": "input-dataset-mutated", "what": "get_admid/add_admid/get_cmt/add_cmt changed the input dataset"})
+    return {"k": k, "mon": mon, "tags": tags, "nontrivial": nontrivial}
+
+
+# ---------------------------------------------------------------- baselines / ids / time-varying / counts with missing values
+
+def _same(a, b):
+    """cell equality with NaN == NaN"""
+    if a is None or b is None:
+        return a is None and b is None
+    return float(a) == float(b)
+
+
+def _cells(frame_row):
+    return [None if (isinstance(v, float) and math.isnan(v)) else float(v) for v in frame_row]
+
+
+def run_cov_case(case, drv):
+    k, mon, tags = [], [], []
+    idn, ncov = case["idname"], case["ncov"]
+    covn = [f"COV{j + 1}" for j in range(ncov)]
+    names = ["TIME", "AMT", "DV"] + covn + ["X"]          # the cells of a record, in this order
+    rows = case["rows"]
+    n = len(rows)
+    ids = [int(r[0]) for r in rows]
+    cells = [[None if v is None else Fraction(v) for v in r[1:]] for r in rows]
+    d = {idn: np.array(ids, dtype="int64")}
+    for j, nm in enumerate(names):
+        d[nm] = np.array([float("nan") if c[j] is None else float(c[j]) for c in cells], dtype="float64")
+    d["ROWLAB"] = np.arange(n, dtype="int64")
+    df = pd.DataFrame(d)
+    types = {idn: "id", "TIME": "idv", "AMT": "dose", "DV": "dv", "X": "unknown", "ROWLAB": "unknown"}
+    types.update({c: "covariate" for c in covn})
+    ci = [ColumnInfo.create(c, type=types[c], datatype="float64" if df[c].dtype == np.float64 else "int32") for c in df.columns]
+    model = Model.create(name="c14cov", dataset=df, datainfo=DataInfo.create(ci))
+    orig = df.copy(deep=True)
+    fr = lambda f: "nan" if f is None else (str(f.numerator) if f.denominator == 1 else f"{f.numerator}/{f.denominator}")
+    wrows = [[str(i)] + [fr(c) for c in cs] for i, cs in zip(ids, cells)]
+    first_of = {}
+    for lab, i in enumerate(ids):
+        first_of.setdefault(i, lab)
+    uniq = list(first_of)                               # ids in order of first appearance
+    miss_first = sum(1 for i in uniq if any(c is None for c in cells[first_of[i]]))
+    tags += ["kind=cov", f"ncov={ncov}", f"id={idn}", f"inds={len(uniq)}",
+             "first-record-has-missing" if miss_first else "first-records-complete"]
+    later_fills = any(cells[first_of[i]][j] is None and any(ids[q] == i and cells[q][j] is not None for q in range(n))
+                      for i in uniq for j in range(len(names)))
+    if later_fills:
+        tags.append("missing-in-first-record-present-later")
+    nontrivial = later_fills
+
+    def ask(req):
+        return drv.ask(req) if drv is not None else None
+
+    # ------------------------------------------------ get_baselines
+    ok, res = call(lambda: data.get_baselines(model))
+    if not ok:
+        mon.append({"cls": "internal-error", "what": f"get_baselines raised {res}"})
+    else:
+        tags.append("q:baselines")
+        got_ids = [int(x) for x in res.index.tolist()]
+        got = {i: _cells(res.loc[i, names].tolist()) for i in got_ids} if len(set(got_ids)) == len(got_ids) else None
+        if sorted(got_ids) != sorted(uniq) or got is None:   # the order of the individuals is not part of the statement
+            mon.append({"cls": "baselines-individuals", "what": f"get_baselines rows for ids {got_ids}, individuals {uniq}"})
+        else:
+            for i in uniq:
+                want = cells[first_of[i]]
+                if not all(_same(a, b) for a, b in zip(got[i], want)) or int(res.loc[i, "ROWLAB"]) != first_of[i]:
+                    mon.append({"cls": "baselines-not-first-record", "what": f"baseline of individual {i}: "
+                                f"{dict(zip(names, got[i]))} (ROWLAB {res.loc[i, 'ROWLAB']}); its first record (row {first_of[i]}) is "
+                                f"{dict(zip(names, [None if w is None else float(w) for w in want]))}"})
+                    break
+            if list(res.columns) != names + ["ROWLAB"] or any(res[c].dtype != orig[c].dtype for c in res.columns):
+                mon.append({"cls": "baselines-frame", "what": f"columns/dtypes of get_baselines: {dict(res.dtypes.astype(str))}"})
+            if drv is not None:
+                m = ask(["base", wrows])
+                ml = [int(x[0]) for x in m]
+                mc = [[None if c == "nan" else Fraction(c) for c in x[1:]] for x in m]
+                if [ids[q] for q in ml] != got_ids or ml != [int(res.loc[i, "ROWLAB"]) for i in got_ids] or \
+                        not all(all(_same(a, b) for a, b in zip(got[i], c)) for i, c in zip(got_ids, mc)):
+                    k.append(f"get_baselines: model rows {ml} {mc} code ids {got_ids} {got}")
+            # locality: an individual on its own has the same baseline
+            if len(uniq) > 1:
+                for i in uniq:
+                    sub = df[df[idn] == i].reset_index(drop=True)
+                    ci2 = [ColumnInfo.create(c, type=types[c], datatype="float64" if sub[c].dtype == np.float64 else "int32")
+                           for c in sub.columns]
+                    ok2, res2 = call(lambda: data.get_baselines(Model.create(name="s", dataset=sub, datainfo=DataInfo.create(ci2))))
+                    alone = _cells(res2.loc[i, names].tolist()) if ok2 else res2
+                    if alone != got[i] and not (ok2 and all(_same(a, b) for a, b in zip(alone, got[i]))):
+                        mon.append({"cls": "baselines-not-local", "what": f"baseline of individual {i} alone {alone}, inside the "
+                                    f"dataset {got[i]}"})
+                        break
+    # ------------------------------------------------ get_covariate_baselines / list_time_varying_covariates
+    cov_idx = [names.index(c) for c in covn]
+    ok, res = call(lambda: data.get_covariate_baselines(model))
+    if not ok:
+        if ncov == 0 and res.startswith("IndexError"):
+            tags.append("covariate-baselines-refused-no-covariates")
+        else:
+            mon.append({"cls": "internal-error", "what": f"get_covariate_baselines raised {res}"})
+    else:
+        tags.append("q:covbaselines")
+        got_ids = [int(x) for x in res.index.tolist()]
+        if sorted(got_ids) != sorted(uniq) or len(set(got_ids)) != len(got_ids) or list(res.columns) != covn:
+            mon.append({"cls": "baselines-individuals", "what": f"get_covariate_baselines ids {got_ids} columns {list(res.columns)}"})
+        else:
+            gotc = [_cells(res.loc[i, covn].tolist()) for i in uniq]
+            for i, g in zip(uniq, gotc):
+                want = [cells[first_of[i]][j] for j in cov_idx]
+                if not all(_same(a, b) for a, b in zip(g, want)):
+                    mon.append({"cls": "baselines-not-first-record", "what": f"covariate baseline of individual {i}: {g}; its first "
+                                f"record has {[None if w is None else float(w) for w in want]}"})
+                    break
+            if drv is not None:
+                m = ask(["covbase", cov_idx, wrows])
+                mi = [int(x[0]) for x in m]
+                mc = [[None if c == "nan" else Fraction(c) for c in x[1:]] for x in m]
+                if mi != got_ids or mi != uniq or not all(all(_same(a, b) for a, b in zip(g, c)) for g, c in zip(gotc, mc)):
+                    k.append(f"get_covariate_baselines: model {mi} {mc} code {got_ids} {gotc}")
+    ref_tv = []
+    for c, j in zip(covn, cov_idx):
+        if any(len({cells[q][j] for q in range(n) if ids[q] == i and cells[q][j] is not None}) > 1 for i in uniq):
+            ref_tv.append(c)
+    ok, res = call(lambda: data.list_time_varying_covariates(model))
+    if not ok:
+        if ncov == 0 and res.startswith("IndexError"):
+            mon.append({"cls": "time-varying-no-covariates", "what": f"list_time_varying_covariates on a dataset without "
+                        f"covariate columns raises {res} (its `return []` branch is unreachable)"})
+        else:
+            mon.append({"cls": "internal-error", "what": f"list_time_varying_covariates raised {res}"})
+    else:
+        tags.append("q:timevarying" + ("+" if ref_tv else "-"))
+        if list(res) != ref_tv:
+            mon.append({"cls": "time-varying-walk-mismatch", "what": f"list_time_varying_covariates {list(res)}, walk {ref_tv}"})
+        if drv is not None:
+            m = [names[int(j)] for j in ask(["tv", cov_idx, wrows])]
+            if m != list(res):
+                k.append(f"list_time_varying_covariates: model {m} code {list(res)}")
+    # ------------------------------------------------ get_ids / get_number_of_individuals
+    ok, res = call(lambda: (data.get_ids(model), data.get_number_of_individuals(model)))
+    if not ok:
+        mon.append({"cls": "internal-error", "what": f"get_ids raised {res}"})
+    else:
+        if list(res[0]) != uniq or res[1] != len(uniq):
+            mon.append({"cls": "ids-walk-mismatch", "what": f"get_ids {res[0]} / {res[1]}, individuals {uniq}"})
+        if drv is not None and [int(x) for x in ask(["ids", wrows])] != list(res[0]):
+            k.append(f"get_ids: model {ask(['ids', wrows])} code {res[0]}")
+    # ------------------------------------------------ observation records and counts (DV may be missing)
+    obs = [q for q in range(n) if cells[q][1] == 0]          # AMT == 0 (no mdv / event column)
+    dvj = names.index("DV")
+    ref_per = {}
+    for q in obs:
+        ref_per[ids[q]] = ref_per.get(ids[q], 0) + 1
+    tags.append(f"nobs={'0' if not obs else '1' if len(obs) == 1 else '2+'}")
+    ok, res = call(lambda: data.get_observations(model, keep_index=True))
+    if not ok:
+        mon.append({"cls": "internal-error", "what": f"get_observations(keep_index=True) raised {res}"})
+    elif [int(x) for x in res.index.tolist()] != obs or not all(_same(a, cells[q][dvj]) for a, q in zip(_cells(res.tolist()), obs)):
+        mon.append({"cls": "observations-walk-mismatch", "what": f"get_observations rows {res.index.tolist()} values {res.tolist()}, "
+                    f"walk rows {obs}"})
+    ok, res = call(lambda: data.get_number_of_observations(model))
+    if not ok:
+        cls = "single-record-squeeze" if len(obs) == 1 and res.startswith("TypeError") else "internal-error"
+        mon.append({"cls": cls, "what": f"get_number_of_observations raised {res} ({len(obs)} observation records)"})
+    elif int(res) != len(obs):
+        mon.append({"cls": "nobs-walk-mismatch", "what": f"get_number_of_observations {res}, walk {len(obs)}"})
+    ok, res = call(lambda: data.get_number_of_observations_per_individual(model))
+    if not ok:
+        cls = "single-record-squeeze" if len(obs) == 1 and res.startswith("AttributeError") else "internal-error"
+        mon.append({"cls": cls, "what": f"get_number_of_observations_per_individual raised {res}"})
+    else:
+        code = [(int(i), int(v)) for i, v in res.items()]
+        if drv is not None:
+            m = [(int(a), int(b)) for a, b in ask(["nobscount", [[str(ids[q]), fr(cells[q][dvj])] for q in obs]])]
+            if m != code:
+                k.append(f"get_number_of_observations_per_individual: model {m} code {code}")
+        if code != sorted(ref_per.items()):
+            missing_dv = any(cells[q][dvj] is None for q in obs)
+            nonmiss = {}
+            for q in obs:
+                nonmiss[ids[q]] = nonmiss.get(ids[q], 0) + (cells[q][dvj] is not None)
+            cls = "nobs-per-individual-skips-missing-dv" if missing_dv and code == sorted(nonmiss.items()) else "nobs-walk-mismatch"
+            mon.append({"cls": cls, "what": f"get_number_of_observations_per_individual {code}, observation records per "
+                        f"individual {sorted(ref_per.items())} (get_number_of_observations counts {len(obs)})"})
+    if not model.dataset.equals(orig):
+        mon.append({"cls": "input-dataset-mutated", "what": "a data function changed the dataset of its input model"})
     return {"k": k, "mon": mon, "tags": tags, "nontrivial": nontrivial}
